@@ -175,6 +175,7 @@ pub fn run(ctx: &Ctx) -> i32 {
             kp_done.lock().unwrap().insert(kp);
         }
         if oi % 20 == 0 {
+            #[cfg(feature = "full")]
             raptorq::verif::verif_cache::clear();
         }
     });
@@ -208,6 +209,7 @@ pub fn run(ctx: &Ctx) -> i32 {
         run_object(ctx, &gf, kp, 2 + i % 2, &n_obj);
         ctx.eval(1);
         if i % 20 == 0 {
+            #[cfg(feature = "full")]
             raptorq::verif::verif_cache::clear();
         }
     });
